@@ -18,6 +18,7 @@ from sa.pyfront import Program
 from sa.symex import Interp
 
 RULES = {
+    "R-C08-j": "multi-way union: besides the empty case and the merged prefix, a shortcut may return the concatenation only when it is shown STRICTLY increasing (x[:-1] < x[1:]); a non-strict test lets a value shared by the end of one array and the start of the next through twice",
     "R-C08-a": "kernel decision table: per branch (left<right, left>right, equal) the emitted side and advanced cursors, the tail copies, and the result for an empty operand / non-overlapping ranges equal the table the set operation requires",
     "R-C08-b": "cache coherence: every cursor advance is followed, before the next comparison, by the exhaustion test and a reload of that cursor's cached value",
     "R-C08-c": "output is the filled prefix: result_len is incremented exactly once per emission and the kernel returns result[:result_len]",
@@ -268,6 +269,11 @@ def _matches(val, exp):
     return True
 
 
+def kernels_children(n):
+    from sa.cyfront import children
+    return children(n)
+
+
 def check_many(rep, funcs):
     f = [x for x in funcs if x.name == "set_union_merge_many"]
     if not f:
@@ -312,6 +318,51 @@ def check_many(rep, funcs):
                       witness={"inputs": "[[4294967295]] -> returns [] instead of [4294967295]"})
         else:
             rep.proved("R-C08-e", "%s@%d" % (where, ex.pos[1]), "exhaustion test", "exhaustion is tracked by position/flag (%s %s %s), not by a sentinel element value" % (getattr(a, "name", tname(a)), ex.operator, getattr(b, "name", tname(b))))
+    # ---- R-C08-j: every return of the function
+    def _parents(root):
+        out = {}
+        for x in walk(root):
+            for c in kernels_children(x):
+                out[id(c)] = x
+        return out
+
+    par = _parents(f.node.body)
+    for r in [x for x in walk(f.node.body) if tname(x) == "ReturnStatNode"]:
+        v = unwrap(r.value) if r.value is not None else None
+        # the guard: nearest enclosing if-clause condition
+        cond = None
+        p = par.get(id(r))
+        while p is not None and cond is None:
+            if tname(p) == "IfClauseNode":
+                cond = p.condition
+            p = par.get(id(p))
+        w = "%s@%d" % (where, r.pos[1])
+        if v is not None and tname(v) == "SliceIndexNode":
+            continue  # the merged prefix (R-C08-c covers its form for the two-way kernels; the layout rule for this one)
+        if v is not None and tname(v) in ("GeneralCallNode", "SimpleCallNode") and tname(v.function) == "AttributeNode" and v.function.attribute in ("empty", "zeros", "array"):
+            continue  # the empty result (R-C08-h)
+        n += 1
+        cmpn = None
+        if cond is not None:
+            for y in walk(cond):
+                if tname(y) == "PrimaryCmpNode" and y.operator in ("<", "<=", ">", ">="):
+                    a, b = unwrap(y.operand1), unwrap(y.operand2)
+                    if tname(a) == "SliceIndexNode" and tname(b) == "SliceIndexNode":
+                        cmpn = y
+        if v is not None and tname(v) == "NameNode" and cmpn is not None:
+            a, b = unwrap(cmpn.operand1), unwrap(cmpn.operand2)
+            same = tname(unwrap(a.base)) == "NameNode" and tname(unwrap(b.base)) == "NameNode" and unwrap(a.base).name == unwrap(b.base).name == v.name
+            strict = cmpn.operator in ("<", ">")
+            if same and strict:
+                rep.proved("R-C08-j", w, "shortcut: return the concatenation when it is strictly increasing", "x[:-1] %s x[1:]" % cmpn.operator)
+            elif same:
+                rep.violated("R-C08-j", w, "shortcut: return the concatenation when it is sorted",
+                             "the test is %s (sorted), not strict: the inputs are each strictly increasing, so equality happens exactly where one array ends with the value the next one starts with - that value is returned twice" % cmpn.operator,
+                             witness={"inputs": "set_union_merge_many([[1, 2, 3], [3, 4, 5]]) -> [1, 2, 3, 3, 4, 5]"})
+            else:
+                rep.undecided("R-C08-j", w, "early return of %s" % v.name, "guard not recognised")
+        else:
+            rep.undecided("R-C08-j", w, "early return in the multi-way union", "neither the empty result nor the merged prefix, and not a recognised shortcut")
     n += check_many_layout(rep, f, where, loop)
     # duplicates: every emission needs either (a) a loop advancing all arrays whose head equals the minimum, or (b) a guard comparing with the previously emitted value
     emits = [x for x in walk(loop.body) if tname(x) == "SingleAssignmentNode" and tname(x.lhs) == "MemoryViewIndexNode" and tname(x.lhs.base) == "NameNode" and x.lhs.base.name == "result_view"]
